@@ -1153,16 +1153,21 @@ class Fn:
         out += [f'  {f} : {t}' for f, t in flds] + ['  exh : Bool', '']
         ropar = ' '.join([f'({n_} : {t_})' for n_, t_ in ret_fns] + [f'({pname[k_]} : {types[k_]})' for k_ in ro])
         stpar = ' '.join(f'({pname[k_]} : {types[k_]})' for k_ in state)
-        out += [f'/-- loop {self.nloops} of `{fname}`: one unfolding = condition, body, increment; `fuel` bounds the number of iterations (`exh` when it runs out) -/',
-                f'def {lname} {ropar} (fuel : Nat) {stpar} : {lname}.St :=', '  match fuel with',
-                '  | 0 => { ' + ', '.join([f'{self.san(k_)} := {pname[k_]}' for k_ in state] + ['exh := true']) + ' }',
-                '  | fuel + 1 =>']
-        for n_, e in body_lets:
-            out.append(f'    let {n_} := {e}')
+        allpar_names = [n_ for n_, _ in ret_fns] + [pname[k_] for k_ in ro]
         stop = self.dead(e2)
         res = '{ ' + ', '.join([f'{self.san(k_)} := {e2[k_]}' for k_ in state] + ['exh := false']) + ' }'
-        rec = f'{lname} ' + ' '.join([n_ for n_, _ in ret_fns] + [pname[k_] for k_ in ro]) + ' fuel ' + ' '.join(str(e2[k_]) for k_ in state)
-        out.append(f'    if {stop} then {res} else {rec}')
+        out += [f'/-- one iteration of loop {self.nloops} of `{fname}` (condition, body, increment): the state after it and whether the loop ends -/',
+                f'def {lname}.step {ropar} {stpar} : {lname}.St × Bool :=']
+        for n_, e in body_lets:
+            out.append(f'  let {n_} := {e}')
+        out.append(f'  ({res}, {stop})')
+        out.append('')
+        out += [f'/-- loop {self.nloops} of `{fname}`: `fuel` bounds the number of iterations (`exh` when it runs out) -/',
+                f'def {lname} {ropar} (fuel : Nat) {stpar} : {lname}.St :=', '  match fuel with',
+                '  | 0 => { ' + ', '.join([f'{self.san(k_)} := {pname[k_]}' for k_ in state] + ['exh := true']) + ' }',
+                '  | fuel + 1 =>',
+                f'    let r := {lname}.step ' + ' '.join(allpar_names + [pname[k_] for k_ in state]),
+                f'    if r.2 then r.1 else {lname} ' + ' '.join(allpar_names) + ' fuel ' + ' '.join(f'r.1.{self.san(k_)}' for k_ in state)]
         out.append('')
         # the same loop inlined into another function of the unit (list_remove inlines list_contains) reuses the first definition
         body_key = '\n'.join(l_ for l_ in out if not l_.startswith('/--')).replace(lname, '<L>')
